@@ -73,6 +73,10 @@ type fdUse struct{ typ, nameKey string }
 
 // fdEncSel turns a (fragment-free) selection set on object type typ into the model's query
 func fdEncSel(in *fdIntern, ss *graphql.SelectionSet, typ string, uses map[fdUse]bool) ([]interface{}, error) {
+	return fdEncSelIn(in, ss, typ, uses, false)
+}
+
+func fdEncSelIn(in *fdIntern, ss *graphql.SelectionSet, typ string, uses map[fdUse]bool, inFed bool) ([]interface{}, error) {
 	out := []interface{}{}
 	if ss == nil {
 		return out, nil
@@ -81,11 +85,14 @@ func fdEncSel(in *fdIntern, ss *graphql.SelectionSet, typ string, uses map[fdUse
 		return nil, fmt.Errorf("fragments in a normalized selection set on %s", typ)
 	}
 	for _, s := range ss.Selections {
+		if inFed && s.Name == "org" {
+			continue // the model's keys are identities: the second key field is checked at the services (fdMissingKey)
+		}
 		key := fdNameKey(s)
 		uses[fdUse{typ, key}] = true
 		kids := []interface{}{}
 		if s.Name == "_federation" {
-			k, err := fdEncSel(in, s.SelectionSet, typ, uses)
+			k, err := fdEncSelIn(in, s.SelectionSet, typ, uses, true)
 			if err != nil {
 				return nil, err
 			}
@@ -189,8 +196,10 @@ func fdValue(st *fdStore, typ string, key int64, nameKey string) interface{} {
 		switch field {
 		case "id":
 			return sc(key)
-		case "a0", "a1", "a2":
+		case "a0", "a2":
 			return sc(a.V[int(field[1]-'0')])
+		case "a1":
+			return sc(a.V[1] + 1000*fdOrg(key))
 		case "aPlus":
 			return sc(a.V[0] + n)
 		case "b":
